@@ -310,9 +310,11 @@ def st_digest(nbytes_order, max_factor=3):
 # ------------------------------------------------------------------ byte mutators
 def mutations(seed: bytes, alphabet=(0x00, 0x01, 0x02, 0x03, 0x04, 0x06, 0x30,
                                      0x7F, 0x80, 0x81, 0x82, 0xA0, 0xA1, 0xFF),
-              full_subst=False):
+              full_subst=False, stride=1):
     """structure-unaware single-edit neighbourhood: truncations, deletions,
-    substitutions, insertions.  Yields (kind, bytes)."""
+    substitutions, insertions.  Yields (kind, bytes).  stride > 1 thins the
+    substitution / insertion positions (the first 24 bytes, where the headers
+    live, are always kept)."""
     n = len(seed)
     for i in range(n):
         yield "trunc", seed[:i]
@@ -321,6 +323,8 @@ def mutations(seed: bytes, alphabet=(0x00, 0x01, 0x02, 0x03, 0x04, 0x06, 0x30,
     for i in range(n):
         yield "del", seed[:i] + seed[i + 1 :]
     for i in range(n):
+        if stride > 1 and i >= 24 and i % stride:
+            continue
         vals = range(256) if full_subst else (
             set(alphabet) | {seed[i] ^ 1, seed[i] ^ 0x80, (seed[i] + 1) & 255,
                              (seed[i] - 1) & 255})
@@ -328,6 +332,8 @@ def mutations(seed: bytes, alphabet=(0x00, 0x01, 0x02, 0x03, 0x04, 0x06, 0x30,
             if v != seed[i]:
                 yield "subst", seed[:i] + bytes([v]) + seed[i + 1 :]
     for i in range(n + 1):
+        if stride > 1 and i >= 24 and i % stride:
+            continue
         for v in alphabet:
             yield "ins", seed[:i] + bytes([v]) + seed[i:]
     yield "dup", seed + seed
